@@ -384,3 +384,4 @@ K('C10', 'rda-gbar-aliases-zeros', [(INF, "        gbar = CliqueVector({ cl : se
                                          "        gbar = zeros = CliqueVector({ cl : self.Factor.zeros(domain.project(cl)) for cl in cliques })\n")], 'mask-not-scaled')
 K('C15', 'size-numpy-prod', [(DOM, "            return reduce(lambda x,y: x*y, self.shape, 1)", "            return int(np.prod(self.shape))"), (DOM, "from functools import reduce", "from functools import reduce\nimport numpy as np")], 'exact-size')
 K('C15', 'datavector-bins-from-shape', [(DS, "        ans = np.histogramdd(self.df.values, bins, weights=self.weights)[0]", "        ans = np.histogramdd(self.df.values, self.domain.shape, weights=self.weights)[0]")], 'histogram')
+T('C01', 'bp-message-by-projection', [(GM, "            messages[(i,j)] = tau.logsumexp(sep)", "            messages[(i,j)] = tau.project(self.sep_axes[(i,j)], agg='logsumexp')")])
